@@ -133,6 +133,19 @@ pub fn decode_c12(tape: &[u16]) -> Case {
             }
         }
     }
+    if t.chance(1, 5) {
+        // a handler on every element that edits with empty strings on purpose
+        let e = String::new;
+        let op = match t.below(6) {
+            0 => Op::OnEndTag(vec![Op::SetTagName(e())]),
+            1 => Op::OnEndTag(vec![Op::Before(e(), CT::Html), Op::After(e(), CT::Text)]),
+            2 => Op::SetAttr("x".into(), e()),
+            3 => Op::SetInner(e(), CT::Text),
+            4 => Op::StreamReplace(vec![e(), e()], CT::Html),
+            _ => Op::Replace(e(), CT::Html),
+        };
+        cfg.sels.push(SelSpec { sel: "*".into(), ops: vec![ScriptOp { kind: Kind::Element, nth: if t.chance(1, 2) { None } else { Some(t.below(3)) }, every_chunk: false, op }], ..Default::default() });
+    }
     let nb = t.range(0, 2);
     for k in 0..nb {
         cfg.bail_outs.push(if t.chance(1, 2) { Some(format!("@@B{k}@@")) } else { Some(String::new()) });
